@@ -12,6 +12,21 @@ package main
 // of them and checks the statement of the round-trip theorem on the library's own answers. A second
 // family plays event streams with forward references, missing and repeated markers straight into
 // validator + builder.
+//
+// Further streams over c20N: the root handed to Marshal BY VALUE (the graph is then "copy of the root
+// object -> everything it pointed at"; same model, the copy is the root node of the heap), and long
+// slices / maps that hold references which are unresolved when the builder reads them, at every
+// position relative to the points where the builder's slice grows.
+//
+// The zoo (second half of this file): values of a Go type with the shapes c20N does not have —
+// pointers to int / float64 / string (shared, first written as map values, as fields, in by-value
+// containers), structs nested by value, arrays of pointers, slices and maps of structs, pointers to
+// slices and maps — marshaled from a pointer, a struct value, an array, a slice and a map as root.
+// Oracle: a generic isomorphism walk over reflect.Values. Correspondence: Model/Graph.v's extended
+// heap language (shape_case_ok recomputes every verdict and the fragment assertion).
+// Every class that fails on the unchanged library has a key computed from the shape of the input
+// (c20X.features) and the symptom: C20/back-edge-in-{by-value-struct,array,slice-of-structs,
+// map-of-structs}, C20/pointer-to-{slice,map}.
 
 import (
 	"encoding/json"
@@ -62,6 +77,9 @@ type c20Node struct {
 type c20Graph struct {
 	Nodes []c20Node `json:"nodes"`
 	Root  int       `json:"root"`
+	// the root object is handed to Marshal BY VALUE (a c20N, not a *c20N). The root node then stands
+	// for that copy: nothing points at it (withByValueRoot adds the copy).
+	ByValue bool `json:"by_value,omitempty"`
 }
 
 func c20NewNode(kind int) c20Node {
@@ -104,7 +122,7 @@ func (g *c20Graph) prune() *c20Graph {
 		}
 		return ren[i]
 	}
-	out := &c20Graph{Root: r(g.Root)}
+	out := &c20Graph{Root: r(g.Root), ByValue: g.ByValue}
 	for _, i := range order {
 		n := g.Nodes[i]
 		m := c20Node{Kind: n.Kind, V: n.V, Keys: append([]int64{}, n.Keys...)}
@@ -177,6 +195,32 @@ func (g *c20Graph) materialize() *c20Mat {
 	return m
 }
 
+// what is handed to Marshal: the pointer, or the struct itself
+func (m *c20Mat) object(g *c20Graph) interface{} {
+	if g.ByValue && m.root != nil {
+		return *m.root
+	}
+	return m.root
+}
+
+// the same graph with its root handed over by value: Marshal receives a copy of the root object, so
+// the graph that is written is "copy -> everything the root pointed at" (if the root lies on a cycle
+// the original root object is still there, below the copy)
+func (g *c20Graph) withByValueRoot() *c20Graph {
+	out := &c20Graph{Root: len(g.Nodes), ByValue: true}
+	for _, n := range g.Nodes {
+		m := n
+		m.El = append([]int{}, n.El...)
+		m.Keys = append([]int64{}, n.Keys...)
+		m.Vals = append([]int{}, n.Vals...)
+		out.Nodes = append(out.Nodes, m)
+	}
+	cp := g.Nodes[g.Root]
+	cp.El, cp.Keys, cp.Vals = nil, nil, nil
+	out.Nodes = append(out.Nodes, cp)
+	return out.prune()
+}
+
 // the identity the library uses for node i
 func (m *c20Mat) typedPointer(g *c20Graph, i int) (duplicates.TypedPointer, bool) {
 	switch g.Nodes[i].Kind {
@@ -192,7 +236,7 @@ func (m *c20Mat) typedPointer(g *c20Graph, i int) (duplicates.TypedPointer, bool
 }
 
 func (m *c20Mat) dups(g *c20Graph) []int {
-	found := duplicates.FindDuplicatePointers(m.root)
+	found := duplicates.FindDuplicatePointers(m.object(g))
 	out := []int{}
 	for i := range g.Nodes {
 		if tp, ok := m.typedPointer(g, i); ok && found[tp] {
@@ -729,18 +773,18 @@ func c20Watch(f func()) (status string, msg string) {
 		f()
 		done <- ""
 	}()
-	select {
-	case m := <-done:
-		if m != "" {
-			return "panic", m
-		}
-		return "ok", ""
-	case <-time.After(20 * time.Second):
-		return "hang", "no answer within 20 s"
+	// (hangWait: 10 s, then — for the first few — another 10 s before the call counts as hanging)
+	m, answered := hangWait(done, 10*time.Second)
+	if !answered {
+		return "hang", "no answer within 10-20 s"
 	}
+	if m != "" {
+		return "panic", m
+	}
+	return "ok", ""
 }
 
-func c20Marshal(format string, root *c20N, cfg *configuration.Configuration) (doc []byte, status string, msg string) {
+func c20Marshal(format string, root interface{}, cfg *configuration.Configuration) (doc []byte, status string, msg string) {
 	var err error
 	status, msg = c20Watch(func() {
 		if format == "cbe" {
@@ -781,9 +825,32 @@ func c20Unmarshal(format string, doc []byte, cfg *configuration.Configuration) (
 	return p, "ok", ""
 }
 
-func c20IterEvents(root *c20N, cfg *configuration.Configuration) (es []Ev, status string) {
-	rec := &Recorder{}
+// a Recorder that gives up (with an ordinary panic, which the watchdog turns into a status) once far
+// more containers have been opened than any of the generated graphs has objects: an iterator that
+// does not find its way out of a cycle is stopped long before the Go stack is exhausted (a stack
+// overflow cannot be recovered from and would take the whole run down)
+type c20LimitRecorder struct {
+	Recorder
+	opened int
+}
+
+const c20MaxContainers = 4000
+
+func (r *c20LimitRecorder) count() {
+	r.opened++
+	if r.opened > c20MaxContainers {
+		panic("c20: the iterator opened more than 4000 containers")
+	}
+}
+func (r *c20LimitRecorder) OnList() { r.count(); r.Recorder.OnList() }
+func (r *c20LimitRecorder) OnMap()  { r.count(); r.Recorder.OnMap() }
+
+func c20IterEvents(root interface{}, cfg *configuration.Configuration) (es []Ev, status string) {
+	rec := &c20LimitRecorder{}
 	status, _ = c20Watch(func() { iterator.NewSession(nil, cfg).NewIterator(rec).Iterate(root) })
+	if status == "panic" && rec.opened > c20MaxContainers {
+		status = "nonterminating"
+	}
 	return rec.Evs, status
 }
 
@@ -851,6 +918,13 @@ type c20Outcome struct {
 	accepted bool
 }
 
+func c20RootSuffix(g *c20Graph) string {
+	if g.ByValue {
+		return "/by-value-root"
+	}
+	return ""
+}
+
 func c20GraphJSON(g *c20Graph) string {
 	b, _ := json.Marshal(g)
 	return string(b)
@@ -871,9 +945,10 @@ func c20RunGraph(g *c20Graph, k c20Cfg) c20Outcome {
 			Expect: "every cycle passes through a pointer that FindDuplicatePointers reports", Got: fmt.Sprintf("reported: %v", dups)})
 		return out
 	}
-	es, st := c20IterEvents(m.root, cfg)
+	obj := m.object(g)
+	es, st := c20IterEvents(obj, cfg)
 	if st != "ok" {
-		out.failures = append(out.failures, Replay{Kind: "graph", Key: "C20/iterate-" + st, Input: in("-"), Expect: "events", Got: st})
+		out.failures = append(out.failures, Replay{Kind: "graph", Key: "C20/iterate-" + st + c20RootSuffix(g), Input: in("-"), Expect: "events", Got: st})
 		return out
 	}
 	out.nested = c20Nested(es)
@@ -883,16 +958,16 @@ func c20RunGraph(g *c20Graph, k c20Cfg) c20Outcome {
 	results := []string{}
 	out.accepted = true
 	for _, format := range []string{"cbe", "cte"} {
-		doc, st, msg := c20Marshal(format, m.root, cfg)
+		doc, st, msg := c20Marshal(format, obj, cfg)
 		if st != "ok" {
-			out.failures = append(out.failures, Replay{Kind: "graph", Key: "C20/marshal-" + st + "/" + format, Input: in(format), Expect: "a document", Got: msg})
+			out.failures = append(out.failures, Replay{Kind: "graph", Key: "C20/marshal-" + st + "/" + format + c20RootSuffix(g), Input: in(format), Expect: "a document", Got: msg})
 			out.accepted = false
 			continue
 		}
 		res, st, msg := c20Unmarshal(format, doc, cfg)
 		if st != "ok" {
 			out.accepted = false
-			key := "C20/unmarshal-" + st + "/" + format
+			key := "C20/unmarshal-" + st + "/" + format + c20RootSuffix(g)
 			switch {
 			case st == "error" && k.Rules && out.nested && strings.Contains(msg, "already exists"):
 				// classification only (the failure itself is that a marshaled document is refused)
@@ -906,7 +981,7 @@ func c20RunGraph(g *c20Graph, k c20Cfg) c20Outcome {
 		}
 		results = append(results, c20ImplResult(res, true))
 		if ok, why := c20Iso(m.root, res); !ok {
-			key := "C20/not-isomorphic/" + format
+			key := "C20/not-isomorphic/" + format + c20RootSuffix(g)
 			if emptyContainer && strings.Contains(why, "not shared") {
 				key = "C20/empty-map-sharing-lost"
 			}
@@ -915,7 +990,7 @@ func c20RunGraph(g *c20Graph, k c20Cfg) c20Outcome {
 	}
 	if len(results) == 2 {
 		out.term = cApp("GraphCase", cBool(k.OmitNever), cBool(k.Rules), g.coqHeap(order), c20Ref(g.Root), c20Addrs(dups), cEvs(es), cList(results))
-		out.human = fmt.Sprintf("graph omit_never=%v rules=%v nested=%v dups=%v %s", k.OmitNever, k.Rules, out.nested, dups, c20GraphJSON(g))
+		out.human = fmt.Sprintf("graph omit_never=%v rules=%v by_value_root=%v nested=%v dups=%v %s", k.OmitNever, k.Rules, g.ByValue, out.nested, dups, c20GraphJSON(g))
 	}
 	return out
 }
@@ -1129,6 +1204,111 @@ func c20Boundary() []*c20Graph {
 	return out
 }
 
+// Long slices and maps that contain references which cannot be resolved when they are read
+// (back-edges to an object that is still being built), at every position relative to the points
+// where the builder's slice has to grow (capacities 4, 8, 16, 32, ...): lengths around the powers of
+// two, the unresolved reference first / in the middle / last / at random positions, held by the root
+// or by a child, the rest of the elements fresh objects, nil, or one shared leaf.
+func c20LongContainers(r *rand.Rand, thorough bool) []*c20Graph {
+	lengths := []int{1, 2, 3, 4, 5, 6, 8, 9, 16, 17, 33}
+	if thorough {
+		lengths = []int{1, 2, 3, 4, 5, 6, 7, 8, 9, 10, 15, 16, 17, 18, 31, 32, 33, 34, 63, 64, 65, 129}
+	}
+	out := []*c20Graph{}
+	// kind: c20Slice or c20Map; holder: 0 = the root holds the container, 1 = a child of the root does;
+	// back[i] = 1: element i points back at the root, 2: at the holder; fill: what the other elements are
+	build := func(kind, holder, n int, back map[int]int, fill func(i int) int) *c20Graph {
+		g := &c20Graph{Root: 0}
+		root := c20NewNode(c20Struct)
+		root.V = 1
+		g.Nodes = append(g.Nodes, root)
+		h := 0
+		if holder == 1 {
+			child := c20NewNode(c20Struct)
+			child.V = 2
+			g.Nodes = append(g.Nodes, child)
+			g.Nodes[0].F[r.Intn(3)] = 1
+			h = 1
+		}
+		cont := c20NewNode(kind)
+		g.Nodes = append(g.Nodes, cont)
+		ci := len(g.Nodes) - 1
+		if kind == c20Slice {
+			g.Nodes[h].F[3] = ci
+		} else {
+			g.Nodes[h].F[4] = ci
+		}
+		leaf := -1
+		for i := 0; i < n; i++ {
+			target := -1
+			switch {
+			case back[i] == 1:
+				target = 0
+			case back[i] == 2:
+				target = h
+			default:
+				switch fill(i) {
+				case 0: // fresh object
+					nn := c20NewNode(c20Struct)
+					nn.V = int64(100 + i)
+					g.Nodes = append(g.Nodes, nn)
+					target = len(g.Nodes) - 1
+				case 1: // nil
+				case 2: // one shared leaf
+					if leaf < 0 {
+						nn := c20NewNode(c20Struct)
+						nn.V = -7
+						g.Nodes = append(g.Nodes, nn)
+						leaf = len(g.Nodes) - 1
+					}
+					target = leaf
+				}
+			}
+			c := &g.Nodes[ci]
+			if kind == c20Slice {
+				c.El = append(c.El, target)
+			} else {
+				c.Keys = append(c.Keys, int64(i*3-4))
+				c.Vals = append(c.Vals, target)
+			}
+		}
+		return g.prune()
+	}
+	fresh := func(int) int { return 0 }
+	mixed := func(int) int { return []int{0, 0, 0, 1, 2}[r.Intn(5)] }
+	for _, kind := range []int{c20Slice, c20Map} {
+		for _, n := range lengths {
+			positions := map[int]bool{0: true, n / 2: true, n - 1: true}
+			if n > 4 {
+				positions[3] = true // the last slot of the first allocation
+				positions[4] = true // the first slot after it
+			}
+			ps := []int{}
+			for p := range positions {
+				ps = append(ps, p)
+			}
+			sort.Ints(ps)
+			if kind == c20Map && !thorough {
+				ps = ps[:1]
+			}
+			for _, p := range ps {
+				out = append(out, build(kind, 0, n, map[int]int{p: 1}, fresh))
+			}
+			// held by a child: one element points at the root, another at the child
+			out = append(out, build(kind, 1, n, map[int]int{r.Intn(n): 1, r.Intn(n): 2}, mixed))
+			// several unresolved references at random positions
+			back := map[int]int{r.Intn(n): 1 + r.Intn(2)}
+			for i := 0; i < n; i++ {
+				if r.Intn(4) == 0 {
+					back[i] = 1 + r.Intn(2)
+				}
+			}
+			out = append(out, build(kind, r.Intn(2), n, back, mixed))
+		}
+	}
+	return out
+}
+
 // ---------------------------------------------------------------------------
 
 func c20Record(c *Ctx, cf *caseFile, stream string, g *c20Graph, k c20Cfg) c20Outcome {
@@ -1153,6 +1333,14 @@ func c20Record(c *Ctx, cf *caseFile, stream string, g *c20Graph, k c20Cfg) c20Ou
 	c.Dist(fmt.Sprintf("slices/%d", kinds[1]))
 	c.Dist(fmt.Sprintf("maps/%d", kinds[2]))
 	c.Dist(fmt.Sprintf("cfg/omit_never=%v,rules=%v", k.OmitNever, k.Rules))
+	c.Dist(fmt.Sprintf("root-by-value/%v", g.ByValue))
+	longest := 0
+	for _, n := range g.Nodes {
+		if l := len(n.El) + len(n.Keys); l > longest {
+			longest = l
+		}
+	}
+	c.Dist(fmt.Sprintf("longest-container/%s", map[bool]string{true: "5+", false: "0-4"}[longest > 4]))
 	c.Dist(fmt.Sprintf("accepted/%v", o.accepted))
 	if o.dups > 0 && len(c.Rep.Samples) < 6 {
 		c.Sample(map[string]string{"stream": stream, "graph": c20GraphJSON(g), "marked": fmt.Sprint(o.dups), "accepted": fmt.Sprint(o.accepted)})
@@ -1167,9 +1355,9 @@ func c20Record(c *Ctx, cf *caseFile, stream string, g *c20Graph, k c20Cfg) c20Ou
 }
 
 func runC20(c *Ctx) {
-	c.Rep.Rule = "graphs over type N{V int; A,B,C *N; S []*N; M map[int]*N}: random tree of 1..12 nodes plus 0..4 extra edges (shared / back edges), each run through CBE and CTE; streams: main (shared objects inside shared objects and cycles through shared objects included; rules on), rules-off, omit-never, empty containers, slice prefixes, boundary shapes; event streams with forward references / missing / repeated markers played into validator+builder; non-trivial = more than one object; distinct = distinct (configuration, graph) or stream"
+	c.Rep.Rule = "graphs over type N{V int; A,B,C *N; S []*N; M map[int]*N}: random tree of 1..12 nodes plus 0..4 extra edges (shared / back edges), each run through CBE and CTE; streams: main (shared objects inside shared objects and cycles through shared objects included; rules on), rules-off, omit-never, empty containers, slice prefixes, boundary shapes; event streams with forward references / missing / repeated markers played into validator+builder; by-value-root: the same graphs with the root struct handed to Marshal by value; long-containers: slices / maps of 1..33 (thorough ..129) entries around the powers of two holding back-edges at the first / middle / last / growth-point / random positions; zoo: values of type Z{V int; P,Q *Z; I,J *int; F,G *float64; T,U *string; In struct{W int; Q *Z; I *int}; Ar [2]*Z; S []*Z; Sv []In; Mp map[string]*Z; Mi map[string]*int; Mf map[int]*float64; Mt map[int]*string; Mv map[string]In; Ps *[]*Z; Pm *map[string]*Z} from a pointer / struct value / array / slice / map root: directed (shared leaf pointers first written as map values with later occurrences in later fields, children, a second map, the same map; sharing through by-value containers; the failing classes) and random (1..7 Z objects, 25% back-edges, 40% sharing per reference slot); non-trivial = more than one object; distinct = distinct (configuration, graph) or stream"
 	cf := c.Cases("graph", "CE.Model.Graph", "graph_case", "graph_case_ok")
-	cf.perFile = 150
+	cf.perFile = 120
 
 	gen := func(wantNested bool) *c20Graph {
 		for try := 0; ; try++ {
@@ -1184,7 +1372,7 @@ func runC20(c *Ctx) {
 			if !g.walkTerminates(dups) {
 				return g // let the oracle report it
 			}
-			es, st := c20IterEvents(m.root, c20Cfg{Rules: true}.config())
+			es, st := c20IterEvents(m.object(g), c20Cfg{Rules: true}.config())
 			if st != "ok" || c20Nested(es) == wantNested || try > 200 {
 				return g
 			}
@@ -1244,9 +1432,25 @@ func runC20(c *Ctx) {
 		c20Record(c, cf, "empty-containers", g.prune(), c20Cfg{Rules: true})
 	}
 
+	// the root object handed to Marshal by value instead of by pointer (boundary shapes and random graphs)
+	for _, g := range c20Boundary() {
+		c20Record(c, cf, "by-value-root", g.withByValueRoot(), c20Cfg{Rules: true})
+	}
+	for i := 0; i < c.Pick(60, 500); i++ {
+		c20Record(c, cf, "by-value-root", gen(i%2 == 1).withByValueRoot(), c20Cfg{Rules: i%3 != 0})
+	}
+	// long slices / maps holding unresolved references around the builder's growth points
+	for i, g := range c20LongContainers(c.Rng, c.Thorough()) {
+		c20Record(c, cf, "long-containers", g, c20Cfg{Rules: i%4 != 3})
+		if i%5 == 0 {
+			c20Record(c, cf, "long-containers", g.withByValueRoot(), c20Cfg{Rules: true})
+		}
+	}
+
 	c20SlicePrefixes(c)
 	c20PointerToPointer(c)
 	c20Streams(c, cf)
+	c20Zoo(c)
 }
 
 // two slices over one backing array with different lengths: not expressible in the model's heaps
@@ -1514,6 +1718,8 @@ func replayC20(r *Replay) (bool, string) {
 		return ok, why
 	case "pointer-to-pointer":
 		return c20PointerToPointerOracle(r.Input["format"], r.Input["rules"] == "true")
+	case "zoo":
+		return c20ReplayZoo(r)
 	case "stream":
 		es, err := parseEvs(r.Input["events"])
 		if err != nil {
@@ -1531,4 +1737,1145 @@ func replayC20(r *Replay) (bool, string) {
 		return iso, why
 	}
 	return false, "unknown replay kind " + r.Kind
+}
+
+// ===========================================================================
+// The zoo: pointer graphs over shapes the type c20N does not have — pointers to scalars and strings
+// (markers on values that are not containers), maps whose values are such pointers, structs nested
+// BY VALUE that hold pointers, arrays of pointers, slices and maps of structs that hold pointers,
+// pointers to slices and to maps — and roots of every kind (pointer, struct value, array, slice,
+// map).  Everything below works on reflect.Values, so a further shape is a further Go type.
+//
+// Search oracle: c20RIso, the isomorphism walk on the Go objects themselves.
+// Correspondence: the original and every result are written as heaps of Model/Graph.v's extended
+// heap language (xheap); the case checker recomputes the isomorphism verdicts there (xiso_check) and
+// checks the statement "inside the supported fragment the round trip gives an isomorphic graph".
+// The library's behaviour on these shapes is NOT modelled in Coq (Model/Graph.v says so).
+
+type c20ZI struct {
+	W int
+	Q *c20Z
+	I *int
+}
+
+type c20Z struct {
+	V  int
+	P  *c20Z
+	I  *int
+	F  *float64
+	T  *string
+	In c20ZI
+	Ar [2]*c20Z
+	S  []*c20Z
+	Sv []c20ZI
+	Mp map[string]*c20Z
+	Mi map[string]*int
+	Mf map[int]*float64
+	Mt map[int]*string
+	Mv map[string]c20ZI
+	Ps *[]*c20Z
+	Pm *map[string]*c20Z
+	// written after the containers above: later occurrences of what those hold
+	Q *c20Z
+	J *int
+	G *float64
+	U *string
+}
+
+var c20ZType = reflect.TypeOf(c20Z{})
+
+// ---------------------------------------------------------------------------
+// generic isomorphism walk (search oracle)
+
+type c20RIdent struct {
+	t reflect.Type
+	p uintptr
+}
+
+type c20RIsoState struct {
+	fwd, bwd map[c20RIdent]c20RIdent
+	why      string
+	// where the walk failed: the by-value containers between the nearest object with an identity and
+	// the slot ("" for a slot directly in such an object), and whether a reference of the original
+	// came back nil
+	chain string
+	lost  bool
+}
+
+func (st *c20RIsoState) pair(a, b c20RIdent, path string) (seen bool, ok bool) {
+	if x, have := st.fwd[a]; have {
+		if x != b {
+			st.why = path + ": an object shared in the original is not shared in the same place in the result"
+			return true, false
+		}
+		return true, true
+	}
+	if _, have := st.bwd[b]; have {
+		st.why = path + ": two different objects of the original are one object in the result"
+		return true, false
+	}
+	st.fwd[a] = b
+	st.bwd[b] = a
+	return false, true
+}
+
+func c20ChainAdd(chain, what string) string {
+	if chain == "" {
+		return what
+	}
+	return chain
+}
+
+// chain: "" directly inside an object with identity, otherwise the outermost by-value container
+func (st *c20RIsoState) walk(a, b reflect.Value, path, chain string) bool {
+	if a.Type() != b.Type() {
+		st.why = fmt.Sprintf("%s: type %v became %v", path, a.Type(), b.Type())
+		return false
+	}
+	fail := func(format string, args ...interface{}) bool {
+		st.why = path + ": " + fmt.Sprintf(format, args...)
+		st.chain = chain
+		return false
+	}
+	switch a.Kind() {
+	case reflect.Int, reflect.Int64:
+		if a.Int() != b.Int() {
+			return fail("%d became %d", a.Int(), b.Int())
+		}
+	case reflect.Float64:
+		if math.Float64bits(a.Float()) != math.Float64bits(b.Float()) {
+			return fail("%v became %v", a.Float(), b.Float())
+		}
+	case reflect.String:
+		if a.String() != b.String() {
+			return fail("%q became %q", a.String(), b.String())
+		}
+	case reflect.Ptr:
+		if a.IsNil() || b.IsNil() {
+			if a.IsNil() != b.IsNil() {
+				st.lost = b.IsNil()
+				return fail("nil pointer on one side only (original nil: %v)", a.IsNil())
+			}
+			return true
+		}
+		seen, ok := st.pair(c20RIdent{a.Type(), a.Pointer()}, c20RIdent{b.Type(), b.Pointer()}, path)
+		if !ok {
+			st.chain = chain
+			return false
+		}
+		if seen {
+			return true
+		}
+		return st.walk(a.Elem(), b.Elem(), path+"*", "")
+	case reflect.Slice:
+		// nil and empty are not distinguished (empty fields are omitted by default)
+		if a.Len() != b.Len() {
+			st.lost = b.Len() == 0
+			return fail("slice of length %d became length %d", a.Len(), b.Len())
+		}
+		if a.Len() == 0 {
+			return true
+		}
+		seen, ok := st.pair(c20RIdent{a.Type(), a.Pointer()}, c20RIdent{b.Type(), b.Pointer()}, path)
+		if !ok {
+			st.chain = chain
+			return false
+		}
+		if seen {
+			return true
+		}
+		for i := 0; i < a.Len(); i++ {
+			ch := ""
+			if k := a.Type().Elem().Kind(); k == reflect.Struct || k == reflect.Array {
+				ch = "slice-of-structs"
+			}
+			if !st.walk(a.Index(i), b.Index(i), fmt.Sprintf("%s[%d]", path, i), ch) {
+				return false
+			}
+		}
+	case reflect.Map:
+		if a.Len() != b.Len() {
+			st.lost = b.Len() == 0
+			return fail("map of length %d became length %d", a.Len(), b.Len())
+		}
+		if a.Len() == 0 {
+			return true
+		}
+		seen, ok := st.pair(c20RIdent{a.Type(), a.Pointer()}, c20RIdent{b.Type(), b.Pointer()}, path)
+		if !ok {
+			st.chain = chain
+			return false
+		}
+		if seen {
+			return true
+		}
+		for _, k := range c20SortedKeys(a) {
+			bv := b.MapIndex(k)
+			if !bv.IsValid() {
+				return fail("map key %v is missing in the result", k)
+			}
+			ch := ""
+			if kk := a.Type().Elem().Kind(); kk == reflect.Struct || kk == reflect.Array {
+				ch = "map-of-structs"
+			}
+			if !st.walk(a.MapIndex(k), bv, fmt.Sprintf("%s[%v]", path, k), ch) {
+				return false
+			}
+		}
+	case reflect.Struct:
+		for i := 0; i < a.NumField(); i++ {
+			ch := chain
+			if k := a.Type().Field(i).Type.Kind(); k == reflect.Struct {
+				ch = c20ChainAdd(chain, "by-value-struct")
+			}
+			if !st.walk(a.Field(i), b.Field(i), path+"."+a.Type().Field(i).Name, ch) {
+				return false
+			}
+		}
+	case reflect.Array:
+		for i := 0; i < a.Len(); i++ {
+			if !st.walk(a.Index(i), b.Index(i), fmt.Sprintf("%s[%d]", path, i), c20ChainAdd(chain, "array")) {
+				return false
+			}
+		}
+	default:
+		return fail("kind %v is outside the zoo", a.Kind())
+	}
+	return true
+}
+
+func c20SortedKeys(m reflect.Value) []reflect.Value {
+	keys := m.MapKeys()
+	sort.Slice(keys, func(i, j int) bool {
+		if keys[i].Kind() == reflect.String {
+			return keys[i].String() < keys[j].String()
+		}
+		return keys[i].Int() < keys[j].Int()
+	})
+	return keys
+}
+
+func c20RIso(a, b reflect.Value) (ok bool, st *c20RIsoState) {
+	st = &c20RIsoState{fwd: map[c20RIdent]c20RIdent{}, bwd: map[c20RIdent]c20RIdent{}}
+	return st.walk(a, b, "root", ""), st
+}
+
+// ---------------------------------------------------------------------------
+// a Go value as a heap of Model/Graph.v's extended heap language
+
+type c20XV struct {
+	K    byte // 'n' nil / empty, 'i' int, 'f' float64 (bits), 's' string, 'r' reference, 'S' struct, 'A' array
+	Z    int64
+	Str  string
+	Ref  int
+	Kids []c20XV
+}
+
+type c20XCell struct {
+	K    byte // 'o' what a pointer points at, 'l' slice (backing array and length), 'm' map
+	T    reflect.Type
+	Val  c20XV
+	Els  []c20XV // 'l': elements; 'm': values
+	Keys []c20XV
+}
+
+type c20X struct {
+	Cells []c20XCell
+	Root  c20XV
+}
+
+func c20Abstract2(root reflect.Value) *c20X {
+	x := &c20X{}
+	ids := map[c20RIdent]int{}
+	var val func(v reflect.Value) c20XV
+	alloc := func(v reflect.Value, k byte) (int, bool) {
+		id := c20RIdent{v.Type(), v.Pointer()}
+		if i, ok := ids[id]; ok {
+			return i, true
+		}
+		ids[id] = len(x.Cells)
+		x.Cells = append(x.Cells, c20XCell{K: k, T: v.Type()})
+		return len(x.Cells) - 1, false
+	}
+	val = func(v reflect.Value) c20XV {
+		switch v.Kind() {
+		case reflect.Int, reflect.Int64:
+			return c20XV{K: 'i', Z: v.Int()}
+		case reflect.Float64:
+			return c20XV{K: 'f', Z: int64(math.Float64bits(v.Float()))}
+		case reflect.String:
+			return c20XV{K: 's', Str: v.String()}
+		case reflect.Ptr:
+			if v.IsNil() {
+				return c20XV{K: 'n'}
+			}
+			i, seen := alloc(v, 'o')
+			if !seen {
+				c := val(v.Elem())
+				x.Cells[i].Val = c
+			}
+			return c20XV{K: 'r', Ref: i}
+		case reflect.Slice:
+			if v.Len() == 0 {
+				return c20XV{K: 'n'}
+			}
+			i, seen := alloc(v, 'l')
+			if !seen {
+				els := []c20XV{}
+				for k := 0; k < v.Len(); k++ {
+					els = append(els, val(v.Index(k)))
+				}
+				x.Cells[i].Els = els
+			}
+			return c20XV{K: 'r', Ref: i}
+		case reflect.Map:
+			if v.Len() == 0 {
+				return c20XV{K: 'n'}
+			}
+			i, seen := alloc(v, 'm')
+			if !seen {
+				keys, els := []c20XV{}, []c20XV{}
+				for _, k := range c20SortedKeys(v) {
+					keys = append(keys, val(k))
+					els = append(els, val(v.MapIndex(k)))
+				}
+				x.Cells[i].Keys, x.Cells[i].Els = keys, els
+			}
+			return c20XV{K: 'r', Ref: i}
+		case reflect.Struct:
+			out := c20XV{K: 'S'}
+			for k := 0; k < v.NumField(); k++ {
+				out.Kids = append(out.Kids, val(v.Field(k)))
+			}
+			return out
+		case reflect.Array:
+			out := c20XV{K: 'A'}
+			for k := 0; k < v.Len(); k++ {
+				out.Kids = append(out.Kids, val(v.Index(k)))
+			}
+			return out
+		}
+		panic(fmt.Sprintf("c20: kind %v is outside the zoo", v.Kind()))
+	}
+	x.Root = val(root)
+	return x
+}
+
+func (v c20XV) coq() string {
+	switch v.K {
+	case 'n':
+		return "XNil"
+	case 'i':
+		return cApp("XInt", cZ(v.Z))
+	case 'f':
+		return cApp("XFlt", fmt.Sprintf("%d%%Z", uint64(v.Z)))
+	case 's':
+		return cApp("XStr", cBytes([]byte(v.Str)))
+	case 'r':
+		return fmt.Sprintf("(XRef %d)", v.Ref+1)
+	}
+	kids := []string{}
+	for _, k := range v.Kids {
+		kids = append(kids, k.coq())
+	}
+	if v.K == 'S' {
+		return cApp("XStruct", cList(kids))
+	}
+	return cApp("XArr", cList(kids))
+}
+
+func (x *c20X) coqHeap() string {
+	items := []string{}
+	for i, c := range x.Cells {
+		body := ""
+		switch c.K {
+		case 'o':
+			body = cApp("XCObj", c.Val.coq())
+		case 'l':
+			els := []string{}
+			for _, e := range c.Els {
+				els = append(els, e.coq())
+			}
+			body = cApp("XCSlice", cList(els))
+		case 'm':
+			kvs := []string{}
+			for k := range c.Keys {
+				kvs = append(kvs, cPair(c.Keys[k].coq(), c.Els[k].coq()))
+			}
+			body = cApp("XCMap", cList(kvs))
+		}
+		items = append(items, fmt.Sprintf("(%d, %s)", i+1, body))
+	}
+	return cList(items)
+}
+
+// ---------------------------------------------------------------------------
+// the shape of an input: which classes of slots it has (computed from the value alone, independent
+// of the order in which the library happens to walk maps)
+
+// features, in the order in which they are consulted for a failure key
+var c20FeatureOrder = []string{"pointer-to-slice", "pointer-to-map", "back-edge-in-by-value-struct", "back-edge-in-array",
+	"back-edge-in-slice-of-structs", "back-edge-in-map-of-structs"}
+
+func (x *c20X) refsOf(c int) []int {
+	out := []int{}
+	var walk func(v c20XV)
+	walk = func(v c20XV) {
+		if v.K == 'r' {
+			out = append(out, v.Ref)
+		}
+		for _, k := range v.Kids {
+			walk(k)
+		}
+	}
+	cell := x.Cells[c]
+	walk(cell.Val)
+	for _, e := range cell.Els {
+		walk(e)
+	}
+	return out
+}
+
+func (x *c20X) reaches(from, to int) bool {
+	seen := map[int]bool{}
+	var walk func(i int) bool
+	walk = func(i int) bool {
+		if i == to {
+			return true
+		}
+		if seen[i] {
+			return false
+		}
+		seen[i] = true
+		for _, j := range x.refsOf(i) {
+			if walk(j) {
+				return true
+			}
+		}
+		return false
+	}
+	return walk(from)
+}
+
+// A reference held in a by-value container (a struct nested in a struct, an array, a struct that is
+// an element of a slice or a value of a map) whose target leads back to the object holding that
+// container: when the library writes the graph, such a reference can be one to an object that is
+// still open ("back-edge"); whether it is depends on the order of the walk, so the feature is the
+// possibility.  Also: any pointer to a slice or to a map.
+func (x *c20X) features() map[string]bool {
+	f := map[string]bool{}
+	for ci, c := range x.Cells {
+		var walk func(v c20XV, chain string)
+		walk = func(v c20XV, chain string) {
+			switch v.K {
+			case 'r':
+				if chain != "" && x.reaches(v.Ref, ci) {
+					f["back-edge-in-"+chain] = true
+				}
+			case 'S':
+				for _, k := range v.Kids {
+					ch := chain
+					if k.K == 'S' {
+						ch = c20ChainAdd(chain, "by-value-struct")
+					}
+					walk(k, ch)
+				}
+			case 'A':
+				for _, k := range v.Kids {
+					walk(k, c20ChainAdd(chain, "array"))
+				}
+			}
+		}
+		switch c.K {
+		case 'o':
+			switch c.T.Elem().Kind() {
+			case reflect.Slice:
+				f["pointer-to-slice"] = true
+			case reflect.Map:
+				f["pointer-to-map"] = true
+			}
+			walk(c.Val, "")
+		case 'l', 'm':
+			for _, e := range c.Els {
+				ch := ""
+				if e.K == 'S' || e.K == 'A' {
+					ch = map[byte]string{'l': "slice-of-structs", 'm': "map-of-structs"}[c.K]
+				}
+				walk(e, ch)
+			}
+		}
+	}
+	return f
+}
+
+// other statistics of a shape (for the distribution report)
+func (x *c20X) stats() (cells, leafCells, sharedLeaves, sharedCells int, cyclic bool) {
+	indeg := map[int]int{}
+	var count func(v c20XV)
+	count = func(v c20XV) {
+		if v.K == 'r' {
+			indeg[v.Ref]++
+		}
+		for _, k := range v.Kids {
+			count(k)
+		}
+	}
+	count(x.Root)
+	for _, c := range x.Cells {
+		count(c.Val)
+		for _, e := range c.Els {
+			count(e)
+		}
+	}
+	for i, c := range x.Cells {
+		leaf := c.K == 'o' && (c.Val.K == 'i' || c.Val.K == 'f' || c.Val.K == 's')
+		if leaf {
+			leafCells++
+		}
+		if indeg[i] > 1 {
+			sharedCells++
+			if leaf {
+				sharedLeaves++
+			}
+		}
+		for _, j := range x.refsOf(i) {
+			if x.reaches(j, i) {
+				cyclic = true
+			}
+		}
+	}
+	return len(x.Cells), leafCells, sharedLeaves, sharedCells, cyclic
+}
+
+// ---------------------------------------------------------------------------
+// building zoo values
+
+type c20ZSpec struct {
+	Shape     string `json:"shape"`          // "random" or the name of a directed shape
+	Root      string `json:"root"`           // ptr | value | array | slice | map
+	Seed      int64  `json:"seed,omitempty"` // random: the generator's own seed
+	Size      int    `json:"size,omitempty"` // random: number of c20Z objects allowed
+	Fields    string `json:"fields,omitempty"`
+	BackByVal bool   `json:"back_by_val,omitempty"`
+	P         []int  `json:"p,omitempty"` // directed: parameters
+}
+
+func (sp c20ZSpec) json() string {
+	b, _ := json.Marshal(sp)
+	return string(b)
+}
+
+// fields of c20Z that a random value may populate
+const c20FieldsClean = "P,I,F,T,In,Ar,S,Sv,Mp,Mi,Mf,Mt,Mv,Q,J,G,U"
+const c20FieldsLeaves = "P,I,F,T,Mi,Mf,Mt,Mp,Q,J,G,U"
+const c20FieldsAll = "P,I,F,T,In,Ar,S,Sv,Mp,Mi,Mf,Mt,Mv,Ps,Pm,Q,J,G,U"
+
+type c20ZGen struct {
+	r         *rand.Rand
+	fields    map[string]bool
+	backByVal bool
+	budget    int
+	open      map[reflect.Type][]reflect.Value
+	done      map[reflect.Type][]reflect.Value
+	strKeys   int
+}
+
+var c20Floats = []float64{0, 1.5, 2.5, -0.25, 100.125, 1e10, -3}
+var c20Strings = []string{"", "a", "lo", "hi", "x y", "été"}
+
+func (g *c20ZGen) pick(vs []reflect.Value) reflect.Value { return vs[g.r.Intn(len(vs))] }
+
+func (g *c20ZGen) value(t reflect.Type, byval bool) reflect.Value {
+	switch t.Kind() {
+	case reflect.Int:
+		return reflect.ValueOf(int(c20Payload(g.r)))
+	case reflect.Float64:
+		return reflect.ValueOf(c20Floats[g.r.Intn(len(c20Floats))])
+	case reflect.String:
+		return reflect.ValueOf(c20Strings[g.r.Intn(len(c20Strings))])
+	case reflect.Ptr, reflect.Slice, reflect.Map:
+		if g.r.Intn(100) < 25 && (!byval || g.backByVal) && len(g.open[t]) > 0 {
+			return g.pick(g.open[t])
+		}
+		if g.r.Intn(100) < 40 && len(g.done[t]) > 0 {
+			return g.pick(g.done[t])
+		}
+		return g.fresh(t)
+	case reflect.Array:
+		a := reflect.New(t).Elem()
+		for i := 0; i < a.Len(); i++ {
+			if g.r.Intn(4) > 0 {
+				a.Index(i).Set(g.value(t.Elem(), true))
+			}
+		}
+		return a
+	case reflect.Struct:
+		s := reflect.New(t).Elem()
+		g.fillStruct(s, true)
+		return s
+	}
+	panic("c20: kind outside the zoo")
+}
+
+func (g *c20ZGen) length() int {
+	if g.r.Intn(8) == 0 {
+		return 5 + g.r.Intn(5)
+	}
+	return 1 + g.r.Intn(4)
+}
+
+func (g *c20ZGen) fresh(t reflect.Type) reflect.Value {
+	var v reflect.Value
+	switch t.Kind() {
+	case reflect.Ptr:
+		et := t.Elem()
+		if et == c20ZType {
+			if g.budget <= 0 {
+				return reflect.Zero(t)
+			}
+			g.budget--
+		}
+		v = reflect.New(et)
+		g.open[t] = append(g.open[t], v)
+		switch et.Kind() {
+		case reflect.Struct:
+			g.fillStruct(v.Elem(), false)
+		case reflect.Slice, reflect.Map:
+			// a pointer to a slice / map: always a non-empty one
+			v.Elem().Set(g.fresh(et))
+		default:
+			v.Elem().Set(g.value(et, false))
+		}
+	case reflect.Slice:
+		n := g.length()
+		v = reflect.MakeSlice(t, n, n)
+		g.open[t] = append(g.open[t], v)
+		for i := 0; i < n; i++ {
+			if t.Elem().Kind() == reflect.Struct || g.r.Intn(6) > 0 {
+				v.Index(i).Set(g.value(t.Elem(), false))
+			}
+		}
+	case reflect.Map:
+		n := g.length()
+		v = reflect.MakeMap(t)
+		g.open[t] = append(g.open[t], v)
+		for i := 0; i < n; i++ {
+			var key reflect.Value
+			if t.Key().Kind() == reflect.String {
+				key = reflect.ValueOf([]string{"a", "b", "lo", "hi", "k", "m", "n", "o", "p", "q"}[(i+g.strKeys)%10])
+			} else {
+				key = reflect.ValueOf(i*7 - 3)
+			}
+			ev := reflect.Zero(t.Elem())
+			if t.Elem().Kind() == reflect.Struct || g.r.Intn(6) > 0 {
+				ev = g.value(t.Elem(), false)
+			}
+			v.SetMapIndex(key, ev)
+		}
+		g.strKeys += 3
+	default:
+		panic("c20: fresh")
+	}
+	g.open[t] = g.open[t][:len(g.open[t])-1]
+	g.done[t] = append(g.done[t], v)
+	return v
+}
+
+func (g *c20ZGen) fillStruct(s reflect.Value, byval bool) {
+	t := s.Type()
+	for i := 0; i < t.NumField(); i++ {
+		f := t.Field(i)
+		switch {
+		case f.Type.Kind() == reflect.Int:
+			s.Field(i).Set(g.value(f.Type, byval))
+		case t == c20ZType && !g.fields[f.Name]:
+		case f.Type.Kind() == reflect.Struct:
+			if g.r.Intn(2) == 0 {
+				s.Field(i).Set(g.value(f.Type, true))
+			}
+		case f.Type.Kind() == reflect.Array:
+			if g.r.Intn(3) == 0 {
+				s.Field(i).Set(g.value(f.Type, true))
+			}
+		default:
+			p := 30
+			if t != c20ZType {
+				p = 60
+			}
+			if g.r.Intn(100) < p {
+				s.Field(i).Set(g.value(f.Type, byval))
+			}
+		}
+	}
+}
+
+func c20RootType(root string) reflect.Type {
+	switch root {
+	case "ptr":
+		return reflect.TypeOf((*c20Z)(nil))
+	case "value":
+		return c20ZType
+	case "array":
+		return reflect.TypeOf([2]*c20Z{})
+	case "slice":
+		return reflect.TypeOf([]*c20Z{})
+	case "map":
+		return reflect.TypeOf(map[string]*c20Z{})
+	}
+	panic("c20: unknown root kind " + root)
+}
+
+// wraps a *c20Z graph into the requested kind of root
+func c20WrapRoot(root string, z *c20Z, other *c20Z) reflect.Value {
+	switch root {
+	case "ptr":
+		return reflect.ValueOf(z)
+	case "value":
+		return reflect.ValueOf(*z)
+	case "array":
+		return reflect.ValueOf([2]*c20Z{z, other})
+	case "slice":
+		return reflect.ValueOf([]*c20Z{z, other, z})
+	case "map":
+		return reflect.ValueOf(map[string]*c20Z{"a": z, "b": other, "c": z})
+	}
+	panic("c20: unknown root kind " + root)
+}
+
+func (sp c20ZSpec) build() (obj reflect.Value, err error) {
+	defer func() {
+		if r := recover(); r != nil {
+			err = fmt.Errorf("%v", r)
+		}
+	}()
+	if sp.Shape == "random" {
+		g := &c20ZGen{r: rand.New(rand.NewSource(sp.Seed)), fields: map[string]bool{}, backByVal: sp.BackByVal, budget: sp.Size,
+			open: map[reflect.Type][]reflect.Value{}, done: map[reflect.Type][]reflect.Value{}}
+		for _, f := range strings.Split(sp.Fields, ",") {
+			g.fields[f] = true
+		}
+		t := c20RootType(sp.Root)
+		switch t.Kind() {
+		case reflect.Struct:
+			s := reflect.New(t).Elem()
+			g.fillStruct(s, false)
+			return s, nil
+		case reflect.Array:
+			a := reflect.New(t).Elem()
+			for i := 0; i < a.Len(); i++ {
+				a.Index(i).Set(g.value(t.Elem(), true))
+			}
+			return a, nil
+		}
+		g.budget++
+		return g.fresh(t), nil
+	}
+	p := func(i int) int {
+		if i < len(sp.P) {
+			return sp.P[i]
+		}
+		return 0
+	}
+	z, other := c20Directed(sp.Shape, p)
+	if z == nil {
+		return obj, fmt.Errorf("unknown shape %q", sp.Shape)
+	}
+	return c20WrapRoot(sp.Root, z, other), nil
+}
+
+// Directed shapes.  The second result is another object of the same graph (used to fill roots that
+// have several slots).
+func c20Directed(shape string, p func(int) int) (*c20Z, *c20Z) {
+	root := &c20Z{V: 1}
+	switch shape {
+	case "leaf-in-map":
+		// Pointers to scalars / strings shared between the values of a map and places that are written
+		// later.  p0: 0 *int, 1 *float64, 2 *string; p1: number of entries; p2: where the later
+		// occurrences are: 0 = fields of a chain of children (and of the root), 1 = a second map, in a
+		// child, 2 = further entries of the same map, 3 = an earlier field of the root as well (then the
+		// map holds references only)
+		kind, n, where := p(0), p(1), p(2)
+		ints, flts, strs := []*int{}, []*float64{}, []*string{}
+		for i := 0; i < n; i++ {
+			a, b, c := 10+i, 1.5+float64(i), fmt.Sprintf("s%d", i)
+			ints, flts, strs = append(ints, &a), append(flts, &b), append(strs, &c)
+		}
+		put := func(z *c20Z, key int, i int) {
+			switch kind {
+			case 0:
+				if z.Mi == nil {
+					z.Mi = map[string]*int{}
+				}
+				z.Mi[fmt.Sprintf("k%02d", key)] = ints[i]
+			case 1:
+				if z.Mf == nil {
+					z.Mf = map[int]*float64{}
+				}
+				z.Mf[key] = flts[i]
+			default:
+				if z.Mt == nil {
+					z.Mt = map[int]*string{}
+				}
+				z.Mt[key] = strs[i]
+			}
+		}
+		field := func(z *c20Z, early bool, i int) {
+			switch {
+			case kind == 0 && early:
+				z.I = ints[i]
+			case kind == 0:
+				z.J = ints[i]
+			case kind == 1 && early:
+				z.F = flts[i]
+			case kind == 1:
+				z.G = flts[i]
+			case early:
+				z.T = strs[i]
+			default:
+				z.U = strs[i]
+			}
+		}
+		for i := 0; i < n; i++ {
+			put(root, i, i)
+		}
+		switch where {
+		case 0:
+			cur := root
+			field(root, false, n-1)
+			for i := 0; i < n; i++ {
+				child := &c20Z{V: 20 + i}
+				field(child, i%2 == 1, i)
+				cur.Q = child
+				cur = child
+			}
+		case 1:
+			child := &c20Z{V: 2}
+			for i := 0; i < n; i++ {
+				put(child, i+100, i)
+			}
+			root.Q = child
+		case 2:
+			for i := 0; i < n; i++ {
+				put(root, i+100, i)
+				put(root, i+200, i)
+			}
+		case 3:
+			field(root, true, 0)
+			field(root, false, n-1)
+			root.Q = &c20Z{V: 2}
+			field(root.Q, false, 0)
+		}
+		return root, root.Q
+	case "forward-in-by-value":
+		// sharing (no cycle) through every kind of by-value container: expected to come back
+		leaf := &c20Z{V: 9}
+		n := 7
+		root.P = leaf
+		root.I = &n
+		root.In = c20ZI{W: 1, Q: leaf, I: &n}
+		root.Ar = [2]*c20Z{leaf, leaf}
+		root.Sv = []c20ZI{{W: 2, Q: leaf}, {W: 3}, {W: 4, Q: leaf, I: &n}}
+		root.Mv = map[string]c20ZI{"a": {W: 5, Q: leaf}, "b": {W: 6, I: &n}}
+		for i := 0; i < p(0); i++ {
+			root.Sv = append(root.Sv, c20ZI{W: 10 + i, Q: leaf})
+		}
+		return root, leaf
+	case "back-edge-in-by-value":
+		// A reference to an object that is still being built, held in a by-value container.
+		// p0: 0 nested struct, 1 array, 2 slice of structs, 3 map of structs; p1: 0 = the container's
+		// holder is the target, 1 = the holder is a child of the target; p2: position in the container
+		holder, target := root, root
+		if p(1) == 1 {
+			holder = &c20Z{V: 2}
+			root.P = holder
+		}
+		switch p(0) {
+		case 0:
+			holder.In = c20ZI{W: 3, Q: target}
+		case 1:
+			holder.Ar[p(2)%2] = target
+			holder.Ar[(p(2)+1)%2] = &c20Z{V: 4}
+		case 2:
+			holder.Sv = []c20ZI{{W: 5}, {W: 6}, {W: 7}}
+			holder.Sv[p(2)%3].Q = target
+		case 3:
+			holder.Mv = map[string]c20ZI{"a": {W: 8}, "b": {W: 9}}
+			holder.Mv[[]string{"a", "b"}[p(2)%2]] = c20ZI{W: 10, Q: target}
+		}
+		return root, holder
+	case "pointer-to-container":
+		// p0: 0 pointer to a slice, 1 pointer to a map; p1: 0 held once, 1 shared
+		child := &c20Z{V: 2}
+		root.Q = child
+		if p(0) == 0 {
+			s := []*c20Z{{V: 3}, {V: 4}}
+			root.Ps = &s
+			if p(1) == 1 {
+				child.Ps = &s
+			}
+		} else {
+			m := map[string]*c20Z{"a": {V: 3}}
+			root.Pm = &m
+			if p(1) == 1 {
+				child.Pm = &m
+			}
+		}
+		return root, child
+	case "shared-leaves":
+		// p0 = number of places one *int / *float64 / *string is held in, spread over struct fields,
+		// by-value containers and a child
+		i, f, s := 5, 2.5, "hi"
+		child := &c20Z{V: 2, I: &i, G: &f, U: &s}
+		root.I, root.J, root.F, root.T = &i, &i, &f, &s
+		root.Q = child
+		if p(0) > 0 {
+			root.In.I = &i
+			root.Sv = []c20ZI{{I: &i}, {W: 1}, {I: &i}}
+			root.Mv = map[string]c20ZI{"a": {I: &i}}
+		}
+		return root, child
+	}
+	return nil, nil
+}
+
+// ---------------------------------------------------------------------------
+// one zoo value through the library
+
+// what Unmarshal returned, as a value of the type that was marshaled
+func c20ZooResult(v interface{}, t reflect.Type) (reflect.Value, error) {
+	if v == nil {
+		return reflect.Zero(t), nil
+	}
+	rv := reflect.ValueOf(v)
+	if rv.Type() == t {
+		return rv, nil
+	}
+	if rv.Kind() == reflect.Ptr && rv.Type().Elem() == t && !rv.IsNil() {
+		return rv.Elem(), nil
+	}
+	return rv, fmt.Errorf("Unmarshal returned a %T for a %v", v, t)
+}
+
+func c20ZooUnmarshal(format string, doc []byte, t reflect.Type, cfg *configuration.Configuration) (res reflect.Value, status string, msg string) {
+	var err error
+	var v interface{}
+	tmpl := reflect.Zero(t).Interface()
+	if t.Kind() == reflect.Struct {
+		tmpl = reflect.Zero(reflect.PtrTo(t)).Interface()
+	}
+	status, msg = c20Watch(func() {
+		if format == "cbe" {
+			v, err = ce.UnmarshalFromCBEDocument(doc, tmpl, cfg)
+		} else {
+			v, err = ce.UnmarshalFromCTEDocument(doc, tmpl, cfg)
+		}
+	})
+	if status != "ok" {
+		return res, status, msg
+	}
+	if err != nil {
+		return res, "error", err.Error()
+	}
+	res, err = c20ZooResult(v, t)
+	if err != nil {
+		return res, "error", err.Error()
+	}
+	return res, "ok", ""
+}
+
+type c20ZooOutcome struct {
+	failures []Replay
+	term     string
+	human    string
+	features map[string]bool
+	x        *c20X
+}
+
+func c20RootKeySuffix(root string) string {
+	if root == "ptr" {
+		return ""
+	}
+	return "/" + root + "-root"
+}
+
+func c20RunZoo(sp c20ZSpec, rules bool) c20ZooOutcome {
+	out := c20ZooOutcome{features: map[string]bool{}}
+	in := func(format string) map[string]string {
+		return map[string]string{"spec": sp.json(), "rules": fmt.Sprint(rules), "format": format}
+	}
+	obj, err := sp.build()
+	if err != nil {
+		out.failures = append(out.failures, Replay{Kind: "zoo", Key: "C20/zoo-bad-spec", Input: in("-"), Got: err.Error()})
+		return out
+	}
+	x := c20Abstract2(obj)
+	out.x = x
+	out.features = x.features()
+	cfg := c20Cfg{Rules: rules}.config()
+	suffix := c20RootKeySuffix(sp.Root)
+	if _, st := c20IterEvents(obj.Interface(), cfg); st != "ok" {
+		out.failures = append(out.failures, Replay{Kind: "zoo", Key: "C20/zoo-iterate-" + st + suffix, Input: in("-"),
+			Expect: "the iterator comes back", Got: st})
+		return out
+	}
+	results := []string{}
+	for _, format := range []string{"cbe", "cte"} {
+		doc, st, msg := c20Marshal(format, obj.Interface(), cfg)
+		if st != "ok" {
+			out.failures = append(out.failures, Replay{Kind: "zoo", Key: "C20/zoo-marshal-" + st + "/" + format + suffix, Input: in(format), Expect: "a document", Got: msg})
+			results = append(results, "SErr")
+			continue
+		}
+		res, st, msg := c20ZooUnmarshal(format, doc, obj.Type(), cfg)
+		if st != "ok" {
+			key := "C20/zoo-unmarshal-" + st + "/" + format + suffix
+			// shapes with their own failure class on the unchanged library
+			if st == "error" || st == "panic" {
+				for _, f := range []string{"pointer-to-slice", "pointer-to-map"} {
+					if out.features[f] {
+						key = "C20/" + f
+						break
+					}
+				}
+			}
+			out.failures = append(out.failures, Replay{Kind: "zoo", Key: key, Input: in(format), Expect: "the document produced by Marshal is accepted", Got: msg})
+			results = append(results, "SErr")
+			continue
+		}
+		ok, st2 := c20RIso(obj, res)
+		rx := c20Abstract2(res)
+		results = append(results, cApp("SOk", rx.coqHeap(), rx.Root.coq(), cBool(ok)))
+		if !ok {
+			key := "C20/zoo-not-isomorphic/" + format + suffix
+			// a reference that came back nil, in a by-value container, in a graph that has a possible
+			// back-edge in that kind of container
+			if st2.lost && st2.chain != "" && out.features["back-edge-in-"+st2.chain] {
+				key = "C20/back-edge-in-" + st2.chain
+			}
+			out.failures = append(out.failures, Replay{Kind: "zoo", Key: key, Input: in(format), Expect: "a graph of the same shape", Got: st2.why})
+		}
+	}
+	feats := []string{}
+	for _, f := range c20FeatureOrder {
+		if out.features[f] {
+			feats = append(feats, f)
+		}
+	}
+	out.term = cApp("ShapeCase", x.coqHeap(), x.Root.coq(), cList(results))
+	out.human = fmt.Sprintf("zoo rules=%v features=%v %s", rules, feats, sp.json())
+	return out
+}
+
+func c20RecordZoo(c *Ctx, cf *caseFile, stream string, sp c20ZSpec, rules bool) c20ZooOutcome {
+	o := c20RunZoo(sp, rules)
+	c.Dist("stream/" + stream)
+	c.Dist("zoo-root/" + sp.Root)
+	if o.x == nil {
+		for _, f := range o.failures {
+			c.Fail(f)
+		}
+		return o
+	}
+	cells, leaves, sharedLeaves, shared, cyclic := o.x.stats()
+	c.Count(fmt.Sprintf("zoo|%v|%s|%s|%s", rules, sp.Root, o.x.coqHeap(), o.x.Root.coq()), cells > 1)
+	c.Dist(fmt.Sprintf("zoo-cells/%02d", cells/4*4))
+	c.Dist(fmt.Sprintf("zoo-leaf-cells/%v", leaves > 0))
+	c.Dist(fmt.Sprintf("zoo-shared-leaf-cells/%v", sharedLeaves > 0))
+	c.Dist(fmt.Sprintf("zoo-shared-cells/%v", shared > 0))
+	c.Dist(fmt.Sprintf("zoo-cyclic/%v", cyclic))
+	none := true
+	for _, f := range c20FeatureOrder {
+		if o.features[f] {
+			c.Dist("zoo-feature/" + f)
+			none = false
+		}
+	}
+	if none {
+		c.Dist("zoo-feature/none")
+	}
+	for _, f := range o.failures {
+		c.Fail(f)
+	}
+	if o.term != "" {
+		cf.Add(o.term, o.human)
+	}
+	return o
+}
+
+func c20Zoo(c *Ctx) {
+	cf := c.Cases("shape", "CE.Model.Graph", "shape_case", "shape_case_ok")
+	cf.perFile = 100
+	roots := []string{"ptr", "value", "array", "slice", "map"}
+
+	// directed: pointers to scalars / strings first written as map values (every kind of leaf, 2..6
+	// entries, every placement of the later occurrences), every kind of root
+	sizes := []int{2, 3, 4, 6}
+	if c.Thorough() {
+		sizes = []int{1, 2, 3, 4, 5, 6, 9, 17}
+	}
+	for kind := 0; kind < 3; kind++ {
+		for _, n := range sizes {
+			for where := 0; where < 4; where++ {
+				root := "ptr"
+				if c.Thorough() || (kind+n+where)%4 == 0 {
+					root = roots[(kind+n+where)/4%len(roots)]
+				}
+				c20RecordZoo(c, cf, "zoo-leaf-in-map", c20ZSpec{Shape: "leaf-in-map", Root: root, P: []int{kind, n, where}}, (kind+n+where)%3 != 0)
+			}
+		}
+	}
+	// directed: sharing through by-value containers, shared leaves
+	for i, root := range roots {
+		c20RecordZoo(c, cf, "zoo-directed", c20ZSpec{Shape: "forward-in-by-value", Root: root, P: []int{i * 2}}, true)
+		c20RecordZoo(c, cf, "zoo-directed", c20ZSpec{Shape: "shared-leaves", Root: root, P: []int{i % 2}}, i%2 == 0)
+	}
+	// directed: the classes that fail on the unchanged library (one key each)
+	for cont := 0; cont < 4; cont++ {
+		for depth := 0; depth < 2; depth++ {
+			for pos := 0; pos < c.Pick(1, 3); pos++ {
+				c20RecordZoo(c, cf, "zoo-back-edge-in-by-value", c20ZSpec{Shape: "back-edge-in-by-value", Root: "ptr", P: []int{cont, depth, pos}}, true)
+			}
+		}
+	}
+	for kind := 0; kind < 2; kind++ {
+		for shared := 0; shared < 2; shared++ {
+			c20RecordZoo(c, cf, "zoo-pointer-to-container", c20ZSpec{Shape: "pointer-to-container", Root: "ptr", P: []int{kind, shared}}, true)
+		}
+	}
+	// random: leaves and maps only (markers on values that are not containers), every kind of root
+	for i := 0; i < c.Pick(120, 1500); i++ {
+		sp := c20ZSpec{Shape: "random", Root: roots[i%len(roots)], Seed: c.Rng.Int63(), Size: 1 + c.Rng.Intn(5), Fields: c20FieldsLeaves}
+		c20RecordZoo(c, cf, "zoo-random-leaves", sp, i%3 != 0)
+	}
+	// random: all supported fields, no back-edges placed in by-value containers
+	for i := 0; i < c.Pick(160, 2000); i++ {
+		sp := c20ZSpec{Shape: "random", Root: roots[i%len(roots)], Seed: c.Rng.Int63(), Size: 1 + c.Rng.Intn(7), Fields: c20FieldsClean}
+		c20RecordZoo(c, cf, "zoo-random", sp, i%3 != 0)
+	}
+	// random: everything, back-edges in by-value containers and pointers to slices / maps included
+	for i := 0; i < c.Pick(40, 400); i++ {
+		sp := c20ZSpec{Shape: "random", Root: roots[i%len(roots)], Seed: c.Rng.Int63(), Size: 1 + c.Rng.Intn(7), Fields: c20FieldsAll, BackByVal: true}
+		if i%2 == 0 {
+			sp.Fields = c20FieldsClean
+		}
+		c20RecordZoo(c, cf, "zoo-random-all", sp, i%3 != 0)
+	}
+}
+
+func c20ReplayZoo(r *Replay) (bool, string) {
+	var sp c20ZSpec
+	if err := json.Unmarshal([]byte(r.Input["spec"]), &sp); err != nil {
+		return false, "bad replay input: " + err.Error()
+	}
+	// the order in which the library walks a Go map differs from run to run, and with it which
+	// occurrence of a shared object is written out: several rounds
+	for round := 0; round < 12; round++ {
+		o := c20RunZoo(sp, r.Input["rules"] == "true")
+		for _, f := range o.failures {
+			if f.Input["format"] == r.Input["format"] || r.Input["format"] == "-" || f.Input["format"] == "-" {
+				return false, fmt.Sprintf("%s: %s (required: %s)", f.Key, f.Got, f.Expect)
+			}
+		}
+	}
+	return true, "marshaling terminated and the unmarshaled graph is isomorphic to the original"
 }
